@@ -4,6 +4,9 @@
 Task table, FIFO queue, buffer of single-entry logs, semaphore, one worker per queued item (each
 worker is bound to the item it was spawned for), the set of failed hashes retried by the next `Load`,
 pending `LoadEnd` events, and the store's `replicationLoadComplete` (a rejected log is skipped).
+A successful fetch is two steps, as in the Go text: `fetched` (buffer the log, queue what it names —
+the task stays `fetching`, the slot stays held) and, possibly after moves of other workers including
+the ones just spawned, `finish` (`processEntryDone`).
 Scheduler choices — which worker moves, which fetch completes or fails, when a context is
 cancelled, when the store handles a `LoadEnd` — are the actions. Hashes are `Nat`.
 -/
@@ -12,7 +15,10 @@ namespace Orbit.Repl
 inductive TS where | added | fetching | fetched
 deriving DecidableEq, Repr
 
-inductive PC where | waitSlot | fetching
+/-- where a worker is: waiting for a fetch slot; inside the fetch (slot held, task `fetching`);
+after `processItems` and before `processEntryDone` (its log is buffered and the hashes it names are
+queued; it still holds its slot, its task is still `fetching`, `taskInProgress` still counts it) -/
+inductive PC where | waitSlot | fetching | finishing
 deriving DecidableEq, Repr
 
 /-- a worker goroutine: the context of the request that spawned it, the item it is bound to -/
@@ -75,7 +81,8 @@ inductive Act where
   | load (ctx : Nat) (hs : List Nat)   -- Load(ctx, heads): re-queue the failed hashes, queue the heads
   | cancel (ctx : Nat)
   | acquire (i : Nat)        -- worker i leaves waitForProcessSlot (with a slot, or failing if its ctx is done)
-  | fetchOk (i : Nat)        -- worker i's fetch returns the requested entry
+  | fetched (i : Nat)        -- worker i's fetch returns the requested entry: buffered, the hashes it names queued
+  | finish (i : Nat)         -- worker i runs `processEntryDone`: task fetched, maybe flush, slot released
   | fetchFail (i : Nat)      -- worker i's fetch fails or is cancelled (the fetcher returns an empty log)
   | deliver                  -- the store main loop handles the oldest LoadEnd
 deriving Repr
@@ -105,16 +112,22 @@ def step (net : Nat → Info) (s : St) : Act → St
         let s := { setTask s h .fetching with queue := s.queue.filter (· != h), sem := s.sem - 1, inProgress := s.inProgress + 1 }
         { s with workers := s.workers.set i ⟨ctx, h, .fetching⟩ }
     | _ => s
-  | .fetchOk i =>
+  | .fetched i =>
+    -- `processHash` + the critical section of `processItems`, merged: between them the task is
+    -- `fetching`, so nobody can flush the buffer
     match s.workers[i]? with
     | some ⟨ctx, h, .fetching⟩ =>
       if s.cancelled.contains ctx then s else
-      let s := { s with workers := removeAt s.workers i }
-      if (net h).foreign then done s h                     -- ignored: not buffered, links not followed
+      let s := { s with workers := s.workers.set i ⟨ctx, h, .finishing⟩ }
+      if (net h).foreign then s                  -- ignored: not buffered, links not followed
       else
         let s := { s with buffer := s.buffer ++ [h] }
-        let s := (net h).links.foldl (enqueue ctx) s
-        done s h
+        (net h).links.foldl (enqueue ctx) s
+    | _ => s
+  | .finish i =>
+    -- `processEntryDone`; nothing looks at the context between `processItems` and here
+    match s.workers[i]? with
+    | some ⟨_, h, .finishing⟩ => done { s with workers := removeAt s.workers i } h
     | _ => s
   | .fetchFail i =>
     match s.workers[i]? with
@@ -127,19 +140,23 @@ def step (net : Nat → Info) (s : St) : Act → St
 
 def run (net : Nat → Info) (s : St) (acts : List Act) : St := acts.foldl (step net) s
 
-/-- the deterministic scheduler used to state liveness: a fetching worker completes its fetch
-(successfully, or failing if its context is cancelled); otherwise a waiting worker goes for a slot;
-otherwise the store handles a pending LoadEnd. -/
+/-- the deterministic scheduler used to state liveness: a worker that has queued its parents
+finishes first; otherwise a fetching worker completes its fetch (successfully, or failing if its
+context is cancelled); otherwise a waiting worker goes for a slot; otherwise the store handles a
+pending LoadEnd. -/
 def pickMove (s : St) : Option Act :=
-  match s.workers.findIdx? (fun w => w.pc == .fetching) with
-  | some i =>
-    match s.workers[i]? with
-    | some w => if s.cancelled.contains w.ctx then some (.fetchFail i) else some (.fetchOk i)
-    | none => none
+  match s.workers.findIdx? (fun w => w.pc == .finishing) with
+  | some i => some (.finish i)
   | none =>
-    match s.workers.findIdx? (fun w => w.pc == .waitSlot) with
-    | some i => some (.acquire i)
-    | none => if s.pending.isEmpty then none else some .deliver
+    match s.workers.findIdx? (fun w => w.pc == .fetching) with
+    | some i =>
+      match s.workers[i]? with
+      | some w => if s.cancelled.contains w.ctx then some (.fetchFail i) else some (.fetched i)
+      | none => none
+    | none =>
+      match s.workers.findIdx? (fun w => w.pc == .waitSlot) with
+      | some i => some (.acquire i)
+      | none => if s.pending.isEmpty then none else some .deliver
 
 /-- run the deterministic scheduler to quiescence (`fuel` bounds the number of moves) -/
 def drain (net : Nat → Info) : Nat → St → St
